@@ -15,6 +15,14 @@ CHECKS = {
    text="Samples are unbounded z3 reals and the alternating extrema positions z3 integers; all feasible paths of the real find_zerox are executed and every midpoint is proved equal to the floor-median of the half-height crossings (centre for inverted / all-zero flanks), with count and temporal pairing.",
    note="Trusted: numpy model (witness-validated), real arithmetic for (a+b)/2. Bound: N <= 7 (quick) / 9 (thorough).",
    ref="4 C03"),
+ 'C06': dict(
+   text="All four feature columns (reals with a symbolic NaN flag per cell), the four thresholds and min_n_cycles are z3 variables; every feasible path of the real detect_bursts_cycles + check_min_burst_cycles is executed over the pandas/numpy models and the label rule and the threshold-monotonicity implication (second run on the same path) are proved.",
+   note="Trusted: pandas/numpy models (witness-validated on real pandas 3 every run). Bound: 1..7 rows (quick) / 1..10 (thorough). +-inf cells not explored.",
+   ref="4 C06"),
+ 'C17': dict(
+   text="Cyclepoint positions are z3 integers (every alternating placement with extrema >= 2 apart, midpoints anywhere in their flank), numpy.pi a z3 real within 1e-13 of pi; all paths of the real extrema_interpolated_phase/_merge_phases are executed and anchors, range, monotonicity and the finite/NaN span are proved as linear-arithmetic obligations.",
+   note="Trusted: numpy model incl. interp (witness-validated). Bound: N <= 9, <= 4 extrema (quick) / N <= 12, <= 5 extrema (thorough). Float rounding inside interp not modelled.",
+   ref="4 C17"),
  'C08': dict(
    text="Every boolean array up to the stated length and every integer min_n_cycles >= 0 are z3 variables; all feasible paths of the real check_min_burst_cycles are executed and the run-length formula, no-False-to-True and idempotence are proved (unsat) on each.",
    note="Trusted: the list-backed numpy model (validated per run by replaying path witnesses on real numpy); z3. Bound: length <= 10 (quick) / 13 (thorough).",
